@@ -97,7 +97,7 @@ class CompactCacheBase(TileCacheBase):
         if tile.source or tile.coord is None:
             return True
 
-        return self._get_bundle(tile.coord).load_tile(tile, dimensions=dimensions)
+        return self._get_bundle(tile.coord).load_tile(tile, with_metadata, dimensions=dimensions)
 
     def load_tiles(self, tiles, with_metadata=False, dimensions=None):
         if len(tiles) > 1:
@@ -110,7 +110,7 @@ class CompactCacheBase(TileCacheBase):
                 bundle_files.add(self._get_bundle_fname_and_offset(t.coord)[0])
                 tile_coord = t.coord
             if len(bundle_files) == 1:
-                return self._get_bundle(tile_coord).load_tiles(tiles, dimensions=dimensions)
+                return self._get_bundle(tile_coord).load_tiles(tiles, with_metadata, dimensions=dimensions)
 
         # No support_bulk_load or tiles are across multiple bundles
         missing = False
@@ -230,6 +230,8 @@ class BundleV1(object):
                         missing = True
                         continue
                     t.source = ImageSource(BytesIO(data))
+                    if with_metadata:
+                        t.size = len(data)
 
         return not missing
 
@@ -536,7 +538,7 @@ class BundleV2(object):
         offset = val - (size << 40)
         return offset, size
 
-    def _load_tile(self, fh, tile, dimensions=None):
+    def _load_tile(self, fh, tile, with_metadata=False, dimensions=None):
         if tile.source or tile.coord is None:
             return True
 
@@ -549,6 +551,8 @@ class BundleV2(object):
         data = fh.read(size)
 
         tile.source = ImageSource(BytesIO(data))
+        if with_metadata:
+            tile.size = len(data)
         return True
 
     def load_tile(self, tile, with_metadata=False, dimensions=None):
@@ -567,7 +571,7 @@ class BundleV2(object):
             for t in tiles:
                 if t.source or t.coord is None:
                     continue
-                if not self._load_tile(fh, t):
+                if not self._load_tile(fh, t, with_metadata):
                     missing = True
 
         return not missing
